@@ -111,6 +111,16 @@ func (sfs *worktreeFilesystem) ReadDir(path string) ([]fs.DirEntry, error) {
 	if err := sfs.validReadPath(path); err != nil {
 		return nil, fmt.Errorf("readdir: %w", err)
 	}
+	// Listing a directory follows a symlink in the final component too, so
+	// a link planted in (or checked out into) the worktree would hand back
+	// the contents of its target: .git, or a directory outside the tree.
+	// Git never descends through a worktree symlink ("beyond a symbolic
+	// link"); refuse like Chroot does.
+	if path != "" && path != "." && path != "/" {
+		if fi, err := sfs.Filesystem.Lstat(path); err == nil && fi.Mode()&os.ModeSymlink != 0 {
+			return nil, fmt.Errorf("readdir: invalid path %q: is a symlink", path)
+		}
+	}
 	return sfs.Filesystem.ReadDir(path)
 }
 
